@@ -22,12 +22,12 @@ TRUSTED = [
 ASSUMPTIONS = [
     "the audio layer seen by the core behaves like AudioEnv (DESIGN.md section 3); GStreamer is not modelled",
     "backend play/pause/resume/stop/seek/get_time_position do not raise (the code's own TODOs; outside the property statements)",
-    "client arguments are type-correct (ints, bools, lists); range errors are part of the quantifier",
+    "client arguments are type-correct (ints, bools, lists) except that add(tracks=...) may carry items that are not Tracks; range errors are part of the quantifier",
 ]
 
 
 def _monitors(prop, case, trace, profile):
-    settled = profile == "settled"
+    settled = profile in ("settled", "settledf")
     if prop == "C01":
         return M.c01(case, trace)
     if prop == "C02":
@@ -50,7 +50,7 @@ def _nontrivial(prop, case, trace):
     if prop == "C02":
         pending_calls = sum(1 for i, t in enumerate(trace)
                             if i > 0 and t["op"][0] not in ("deliver", "tick") and trace[i - 1]["queue_len"] > 0)
-        return "track_playback_started" in names and (pending_calls >= 1 or case["profile"] == "settled")
+        return "track_playback_started" in names and (pending_calls >= 1 or case["profile"] in ("settled", "settledf"))
     if prop == "C03":
         return names.count("track_playback_started") >= 2
     if prop == "C04":
@@ -191,7 +191,7 @@ def run_core(chk, prop, profiles, prop_files, quick_n=350, thorough_n=9000):
         for _ in range(n):
             mco = None
             if chk.tier == "thorough":
-                mco = {"settled": 25, "restore": 30}.get(profile, 60)
+                mco = {"settled": 25, "settledf": 25, "restore": 30}.get(profile, 60)
             case, obs, trace = core_gen.generate_and_run(rng, profile, mco)
             pairs.append((case, obs))
             run_monitors(chk, prop, case, trace, profile)
